@@ -1010,7 +1010,22 @@ func e2eAppComponent(r *hx.Run) {
 		var n int
 		var w time.Duration
 		var rate string
-		switch rng.Intn(3) {
+		nAddr, nPort := 8, 6
+		form := rng.Intn(4)
+		if i < len(rateCases) && i%3 == 2 {
+			form = 3
+		}
+		switch form {
+		case 3:
+			// a window that does not divide a second, and enough probes for a rate that is off by a fifth to show
+			// beyond the burst allowance and the slack
+			wms := []int{400, 600, 700, 150}[rng.Intn(4)]
+			if i < len(rateCases) {
+				wms = []int{400, 600}[i/3%2]
+			}
+			n, w = wms/perMs, time.Duration(wms)*time.Millisecond
+			rate = fmt.Sprintf("%d/%dms", n, wms)
+			nPort = 30
 		case 0:
 			n, w = 1000/perMs, time.Second
 			rate = fmt.Sprintf("%d/s", n)
@@ -1025,7 +1040,6 @@ func e2eAppComponent(r *hx.Run) {
 		sp.mode = rc.mode
 		loopBase := uint32(127<<24) | uint32(1+rng.Intn(200))<<16 | uint32(rng.Intn(250))<<8
 		p0 := 20000 + rng.Intn(20000)
-		nAddr, nPort := 8, 6
 		sp.ones = 29
 		sp.base = loopBase | uint32(rng.Intn(32))<<3
 		for a := 0; a < nAddr; a++ {
